@@ -109,6 +109,32 @@ theorem reach_invA (v cb fb) (sch : List Label) : InvA (run (init v cb fb) sch) 
 theorem reach_invB (cb fb) (sch : List Label) : InvB (run (init .fixed cb fb) sch) :=
   run_induct InvB invB_step _ (invB_init cb fb) sch
 
+/-! ## invariant W: the send side — a request frame is written whole, once -/
+
+structure InvW (s : St) : Prop where
+  nodup : s.sentReqs.Nodup
+  written : ∀ c ∈ s.sentReqs, (s.calls c).phase = .sent ∨ (s.calls c).phase = .waiting ∨
+      ∃ o, (s.calls c).phase = .done o
+  sentIn : ∀ c, (s.calls c).phase = .sent ∨ (s.calls c).phase = .waiting → c ∈ s.sentReqs
+  onWire : ∀ c ∈ s.sentReqs, c ∈ s.outbox.map (·.1)
+
+theorem invW_init (v cb fb) : InvW (init v cb fb) := by
+  refine ⟨?_, ?_, ?_, ?_⟩ <;> simp [init]
+
+theorem invW_step (s : St) (l : Label) (s' : St) (h : InvW s) (hs : step s l = some s') :
+    InvW s' := by
+  obtain ⟨h1, h2, h3, h4⟩ := h
+  cases l
+  all_goals (simp only [step] at hs)
+  all_goals (repeat' (split at hs))
+  all_goals (try (cases hs; done))
+  all_goals (cases hs)
+  all_goals (refine ⟨?_, ?_, ?_, ?_⟩ <;>
+    simp only [St.setPhase, St.setFut, St.finish, St.lexit] at * <;> (try split) <;> grind)
+
+theorem reach_invW (v cb fb) (sch : List Label) : InvW (run (init v cb fb) sch) :=
+  run_induct InvW invW_step _ (invW_init v cb fb) sch
+
 /-! ## more helpers -/
 
 theorem fst_nodup_unique {l : List (Nat × Bytes)} (h : (l.map (·.1)).Nodup) {a : Nat} {b b' : Bytes}
@@ -235,6 +261,17 @@ theorem answer_at_most_once (v : Variant) (cb : Bytes) (fb : List Bytes) (sch : 
     ∀ c r r', (c, r) ∈ s.delivered → (c, r') ∈ s.delivered → r = r' := by
   have h := (reach_invA v cb fb sch).idsNodup
   exact ⟨h, fun c r r' h1 h2 => fst_nodup_unique h h1 h2⟩
+
+/-- **request_written_once** (both variants): under every schedule — other senders running
+    between a call's `send` and its `drain` included — the request of a call is handed to the
+    writer at most once and as one frame (`send` is a single step), it is on the wire, and a call
+    that is waiting for its answer has been written -/
+theorem request_written_once (v : Variant) (cb : Bytes) (fb : List Bytes) (sch : List Label) :
+    let s := run (init v cb fb) sch
+    s.sentReqs.Nodup ∧ (∀ c ∈ s.sentReqs, c ∈ s.outbox.map (·.1)) ∧
+    ∀ c, (s.calls c).phase = .sent ∨ (s.calls c).phase = .waiting → c ∈ s.sentReqs := by
+  have h := reach_invW v cb fb sch
+  exact ⟨h.nodup, h.onWire, h.sentIn⟩
 
 /-- the ghost log grows only when the listener decodes a frame whose id is pending -/
 theorem delivered_only_by_recv (s : St) (l : Label) (s' : St) (hs : step s l = some s') :
